@@ -424,15 +424,7 @@ Fixpoint serve (fuel : nat) (all : bool) (x : xsys) : xsys :=
   end.
 
 (* apply one label: (concrete harness op if any, new state, the segment if an op was emitted) *)
-Definition apply_label_g (x : xsys) (lab : bytes) : option bytes * xsys * option seg :=
-  let '(head, arg) := match split_on 58 lab with
-                      | [h] => (h, [])
-                      | h :: a :: _ => (h, a)
-                      | [] => ([], [])
-                      end in
-  match head with
-  | [] => (None, x, None)
-  | kind :: idtxt =>
+Definition apply_core (x : xsys) (lab : bytes) (kind : N) (idtxt arg : bytes) : option bytes * xsys * option seg :=
     let id := read_N idtxt in
     let run_op (op : bytes) (x1 : xsys) (g : seg) :=
         let '(x2, g2) := settle 4000 x1 g in
@@ -474,7 +466,17 @@ Definition apply_label_g (x : xsys) (lab : bytes) : option bytes * xsys * option
       run_op lab (set_qc x (x_queue x) (remove_caller id (x_callers x))) seg0
     else if existsb (N.eqb kind) [105; 99; 118; 121; 97] then
       let '(x1, g1) := issue x seg0 kind id arg in run_op lab x1 g1
-    else (None, x, None)
+    else (None, x, None).
+
+Definition apply_label_g (x : xsys) (lab : bytes) : option bytes * xsys * option seg :=
+  let '(head, arg) := match split_on 58 lab with
+                      | [h] => (h, [])
+                      | h :: a :: _ => (h, a)
+                      | [] => ([], [])
+                      end in
+  match head with
+  | [] => (None, x, None)
+  | kind :: idtxt => apply_core x lab kind idtxt arg
   end.
 
 (* ... and the segment as text *)
